@@ -84,6 +84,15 @@ CHECKS = {
             'shape of the designed graph and is not decided.',
             'symbolic list-length and contiguous-run abstract interpretation + value graph + CFG ordering',
             'DESIGN.md 4 C15'),
+    'C17': ('other',
+            'Pairing on the flow graph (with exceptional edges) of every design-time caller of SimParams.set_params: '
+            'both parameter groups are saved before the override and restored on every exit; settings classes export '
+            'exactly their constructor parameters; each in-place increment of an exported element field in the design '
+            'code must be a fix-point (the EOL margin on con_out is not: known finding, reported as KNOWN-FINDING); every '
+            'key an element exports under params/operational is read by its parameter class or loader.',
+            'Equality up to rounding of whole networks is not decided.',
+            'CFG pairing/typestate with exceptional edges + export/constructor table agreement + guarded-increment rule',
+            'DESIGN.md 4 C17'),
     'C18': ('other',
             'Table/sibling agreement over source and YANG models: converter/inverse pairing per document kind, twin '
             'key vocabulary and entry domain, written-back keys consumed by the loaders, PRECISION_DICT against all '
